@@ -493,3 +493,10 @@ pub fn _hb_ot_shape_normalize(
         buffer.sync();
     }
 }
+
+/// Verification hooks (compiled only with `--cfg rb_verif`).
+#[cfg(rb_verif)]
+#[allow(unused_imports, dead_code, missing_docs)]
+pub mod verif_hooks {
+    use super::*;
+}
